@@ -31,18 +31,13 @@ import (
 	"fmt"
 	"io"
 	"net/http"
-	"runtime/debug"
 	"strconv"
 	"strings"
-	"sync"
-	"sync/atomic"
-	"time"
 
 	"github.com/go-openapi/runtime"
 
 	"verif/engine/choice"
 	"verif/engine/enum"
-	"verif/engine/report"
 )
 
 // ---------------------------------------------------------------------------
@@ -504,7 +499,11 @@ func exec(cfgs []*config, ops []uint8, ch *choice.Chooser, zeroBudget int, st *s
 		if e := recover(); e != nil {
 			msg := fmt.Sprint(e)
 			if strings.HasPrefix(msg, "choice:") {
-				panic(e) // engine-level error (replay divergence): never an oracle verdict
+				// replay divergence: the same (configuration, history, choice prefix) made the streams see a different
+				// sequence of calls than before - the implementation depends on something outside the request.
+				// Not an oracle verdict by itself; the explorer counts it and does not descend further.
+				class, what = classDiverged, msg
+				return
 			}
 			st.outcomes[oPanic]++
 			class = "panic"
@@ -902,11 +901,6 @@ func (q *sess) apply(op uint8, label string) (string, string) {
 			return cl, w
 		}
 	}
-	if len(x.sess) == 0 { // single request being built (never the case) - keep the own check
-		if cl, w := q.invariants(); cl != "" {
-			return cl, w
-		}
-	}
 	x.record()
 	return "", ""
 }
@@ -1034,221 +1028,11 @@ func allSeqs(sw sweep) [][]uint8 {
 	return out
 }
 
+const classDiverged = "!replay-diverged"
+
 func specName(b bodySpec) string {
 	if b.n < 0 {
 		return "nil"
 	}
 	return fmt.Sprintf("%d+%s", b.n, termName(b.term))
-}
-
-func main() {
-	started := time.Now()
-	r := report.Start("C17", "model_checking")
-	// every probe allocates a 4 KiB bufio buffer inside the code under test; with report's default of 2000%
-	// the heap balloons and the time goes into page faults (measured: sys 14 s vs 2 s)
-	debug.SetGCPercent(400)
-	if r.Replay != "" {
-		var c Case
-		r.LoadReplay(&c)
-		fmt.Printf("replay %+v\n", c)
-		cl, what := check(c, func(f string, a ...any) { fmt.Printf(f+"\n", a...) })
-		fmt.Printf("  class=%q %s\n", cl, what)
-		if cl != "" {
-			r.Fail(cl, what, c)
-		}
-		r.Eval(1)
-		r.Traces(1)
-		r.Nontrivial(2)
-		r.Sample(c)
-		r.Finish("replay of one case", false)
-	}
-
-	small := []int{-1, 0, 1, 2, 3}
-	big := []int{4095, 4096, 4097, 8193}
-	undeclared := []string{modeAbsent0, modeAbsentMinus}
-	declared := []string{modeZero, modePositive, modePositiveNH}
-	wire := []string{modeWireCL, modeWireChunked, modeWireChunked2, modeWireNone}
-	// bodies that collide when something is shared between requests: byte-less (EOF at once / error before the
-	// first byte) next to bodies with content (contents of A, B, C are disjoint)
-	collide := []bodySpec{{0, io.EOF}, {0, errInjected}, {1, io.EOF}, {3, io.EOF}, {2, errInjected}}
-	collideNil := append([]bodySpec{{-1, io.EOF}}, collide...)
-	var sweeps []sweep
-	declBodies := append(append([]int{}, small...), 4097)
-	if r.Thorough() {
-		sweeps = []sweep{
-			{name: "small-bodies/undeclared/every-chunking", bodies: small, modes: undeclared, maxLen: 5, bound: -1, zeroBudget: 2},
-			{name: "two-requests/undeclared", nreq: 2, multi: collideNil, maxLen: 5, bound: 1, zeroBudget: 1},
-			{name: "three-requests/undeclared", nreq: 3, multi: collide[:4], maxLen: 4, bound: 1, zeroBudget: 0},
-			{name: "buffer-sized-bodies/undeclared", bodies: big, modes: undeclared, maxLen: 5, bound: 2, zeroBudget: 1},
-			{name: "declared-length", bodies: declBodies, modes: declared, maxLen: 5, bound: 1, zeroBudget: 1},
-			{name: "net/http-delivered", bodies: []int{0, 1, 2, 3, 4096, 4097}, modes: wire, maxLen: 5, bound: 1, zeroBudget: 1},
-			{name: "extended-read-sizes/undeclared", bodies: []int{0, 1, 3, 4095, 4096, 4097, 8193, 12289}, modes: undeclared, minLen: 1, maxLen: 4, extended: true, bound: 1, zeroBudget: 1},
-			{name: "small-bodies/undeclared/len6", bodies: small, modes: undeclared, minLen: 6, maxLen: 6, bound: 2, zeroBudget: 1},
-			{name: "small-bodies/undeclared/len7", bodies: small, modes: undeclared, minLen: 7, maxLen: 7, bound: 1, zeroBudget: 1},
-		}
-	} else {
-		sweeps = []sweep{
-			{name: "small-bodies/undeclared", bodies: small, modes: undeclared, maxLen: 5, bound: 2, zeroBudget: 1},
-			{name: "two-requests/undeclared", nreq: 2, multi: collide, maxLen: 4, bound: 1, zeroBudget: 1},
-			{name: "buffer-sized-bodies/undeclared", bodies: big[1:], modes: undeclared, maxLen: 4, bound: 1, zeroBudget: 1},
-			{name: "declared-length", bodies: declBodies, modes: declared, maxLen: 3, bound: 1, zeroBudget: 1},
-			{name: "net/http-delivered", bodies: []int{0, 1, 3, 4097}, modes: wire, maxLen: 4, bound: 1, zeroBudget: 1},
-		}
-	}
-
-	// own wall-clock limit, below the tier budgets (quick 60 s, thorough 10 min): on an overloaded machine the
-	// run stops exploring and is reported exhaustive:false with the sweeps it completed - never as a failure
-	limit := 40 * time.Second
-	if r.Thorough() {
-		limit = 8 * time.Minute
-	}
-	var cut atomic.Bool
-	stop := func() bool {
-		if r.OutOfTime() {
-			return true
-		}
-		if time.Since(started) > limit {
-			cut.Store(true)
-			return true
-		}
-		return false
-	}
-	pool := sync.Pool{New: func() any { return newStats() }}
-	var mu sync.Mutex
-	global := map[uint64]struct{}{}
-	var total stats
-	cfgID := 0
-	sweepInfo := map[string]any{}
-	completed := []string{}
-	for _, sw := range sweeps {
-		var cfgs [][]*config // one tuple of request configurations per entry
-		if sw.nreq > 1 {
-			// request A is undeclared-unknown (chunked), B undeclared with ContentLength 0, C like A
-			modes := [maxReqs]string{modeAbsentMinus, modeAbsent0, modeAbsentMinus}
-			sizes := make([]int, sw.nreq)
-			for i := range sizes {
-				sizes[i] = len(sw.multi)
-			}
-			enum.Product(sizes, func(idx []int) {
-				var tuple []*config
-				for which, bi := range idx {
-					cfgID++
-					b := sw.multi[bi]
-					tuple = append(tuple, newConfig(cfgID, b.n, b.term, modes[which], which))
-				}
-				cfgs = append(cfgs, tuple)
-			})
-		} else {
-			for _, bl := range sw.bodies {
-				terms := []error{io.EOF, errInjected}
-				if bl < 0 {
-					terms = terms[:1]
-				}
-				for _, t := range terms {
-					for _, md := range sw.modes {
-						cfgID++
-						if isWire(md) && !wireOK(md, bl, t) {
-							continue
-						}
-						cfgs = append(cfgs, []*config{newConfig(cfgID, bl, t, md, 0)})
-					}
-				}
-			}
-		}
-		seqs := allSeqs(sw)
-		n := len(cfgs) * len(seqs)
-		var swExecs int64
-		var sampled atomic.Int32
-		t0 := time.Now()
-		rot := int(uint64(r.Seed) % uint64(n))
-		enum.Parallel(n, stop, func(i int) {
-			i = (i + rot) % n
-			cfg := cfgs[i%len(cfgs)]
-			ops := seqs[i/len(cfgs)]
-			st := pool.Get().(*stats)
-			choice.Explore(sw.bound, stop, func(ch *choice.Chooser) {
-				cl, what := exec(cfg, ops, ch, sw.zeroBudget, st, nil)
-				if cl != "" {
-					r.Fail(cl, what, mkCase(cfg, ops, sw.zeroBudget, ch.Choices()))
-				} else if len(ops) == sw.maxLen && ch.Deviations() > 0 && varied(ops) && sampled.Load() < 2 && sampled.Add(1) <= 2 {
-					// two real executions per sweep: a longest history under a non-default stream behaviour
-					r.Sample(mkCase(cfg, ops, sw.zeroBudget, ch.Choices()))
-				}
-			})
-			mu.Lock()
-			for k := range st.states {
-				global[k] = struct{}{}
-			}
-			for k, v := range st.outcomes {
-				total.outcomes[k] += v
-			}
-			total.execs += st.execs
-			total.nontrivial += st.nontrivial
-			total.transitions += st.transitions
-			if st.maxChoices > total.maxChoices {
-				total.maxChoices = st.maxChoices
-			}
-			swExecs += st.execs
-			mu.Unlock()
-			clear(st.states)
-			*st = stats{states: st.states, buf: st.buf}
-			pool.Put(st)
-		})
-		bound := any(sw.bound)
-		if sw.bound < 0 {
-			bound = "unbounded"
-		}
-		info := map[string]any{
-			"configurations": len(cfgs), "history_length": []int{sw.minLen, sw.maxLen}, "histories": len(seqs),
-			"stream_deviation_bound": bound, "zero_length_read_budget": sw.zeroBudget, "executions": swExecs, "wall_s": time.Since(t0).Seconds(),
-		}
-		if sw.nreq > 1 {
-			var names []string
-			for _, b := range sw.multi {
-				names = append(names, specName(b))
-			}
-			var on []string
-			for _, o := range multiOps {
-				on = append(on, opNames[o])
-			}
-			info["requests_alive_together"] = sw.nreq
-			info["body_alphabet(len+terminal), every ordered tuple"] = names
-			info["operations_per_request"] = on
-			info["modes"] = "A: absent-unknown, B: absent, C: absent-unknown (all on the undeclared-length path)"
-		} else {
-			info["body_lengths(-1=nil)"] = sw.bodies
-			info["terminals"] = []string{"EOF", "ERR(sticky, after the last byte)"}
-			info["modes"] = sw.modes
-			info["extended_alphabet"] = sw.extended
-		}
-		sweepInfo[sw.name] = info
-		if !r.Cut() && !cut.Load() {
-			completed = append(completed, sw.name)
-		}
-	}
-	r.Eval(total.execs)
-	r.Traces(total.execs)
-	r.Nontrivial(total.nontrivial)
-	r.Transitions(total.transitions)
-	r.States(int64(len(global)))
-	for i, v := range total.outcomes {
-		if v > 0 {
-			r.Outcome(outcomeNames[i], v)
-		}
-	}
-	r.Set("operations", opNames[:])
-	r.Set("epilogue", "after every history, for every request in turn: Read(4096) until the terminal condition, Read(1), Close, Read(1), Close, Read(4096) - all judged by the same oracle")
-	r.Set("stream_choice_point", "every Read the underlying stream receives before it has delivered its terminal: full | 1 byte | all but one | all + terminal together | (0,nil); every Close it receives: nil | error (the stream counts as closed either way)")
-	r.Set("several_requests", "sweeps 'two-requests' / 'three-requests': the requests are created first and stay alive together in one process; histories interleave their operations in every order; bodies of A, B, C have disjoint byte values; each request has its own stream, close counter and reference model, and the close-count clauses of ALL requests are evaluated after every operation")
-	r.Set("sweeps", sweepInfo)
-	r.Set("sweeps_completed", completed)
-	r.Set("max_choice_points_in_one_execution", total.maxChoices)
-	r.Set("state_definition", "distinct tuples, over the requests of the execution, of (configuration, model state {yielded, terminal seen, closed, last probe answer}, observable implementation/environment state {request body kind nil|original|replaced, underlying offset, terminal delivered, closes, close errors, zero-length reads used}) reached after some operation")
-	r.Assume(
-		"the underlying stream is well behaved in the sense of io.Reader: its terminal condition (EOF or an error after byte k) is sticky, and it returns an error when read after Close (whether or not that Close reported an error)",
-		"requests are consistent: a Content-Length header accompanies ContentLength only with the same value; ContentLength 0 or -1 without header is 'no length declared'",
-		"a HasBody answer is forced only while sentence 1 (same answer as before) and sentence 2 (positive declared length, or undeclared and a byte can be read) agree; after consumption or Close between two probes it is MAY",
-		"several-request histories run their operations one after the other on one goroutine (no concurrent calls into the library); worker goroutines of the explorer run other executions in the same process at the same time",
-	)
-	r.Finish("one execution = (configuration tuple of 1-3 requests, interleaved operation history incl. fixed epilogue per request, choice sequence of the underlying streams' Read and Close answers); the enumerators never repeat a triple inside a sweep (every history of the stated lengths once, choice.Explore visits each choice sequence within the bound once). Non-trivial = for EVERY request of the execution a HasBody call replaced the body by a peeking wrapper around a non-nil stream AND at least one later HasBody/Read/Close of that request was served through the wrapper", !cut.Load())
 }
